@@ -5,8 +5,12 @@ package c20
 
 import (
 	"crypto/sha256"
+	"encoding/json"
 	"fmt"
 	"math/rand"
+	"os"
+	"os/exec"
+	"path/filepath"
 	"runtime/debug"
 
 	"github.com/iotaledger/iota.go/trinary"
@@ -32,6 +36,9 @@ func init() {
 		},
 		Required: []string{"fenced executions (upper placement)", "fenced executions (lower placement)", "lanes modelled", "three-way agreement", "lane permutation checked"},
 		Post: func(r *fw.RunResult) {
+			if r.Tier == "thorough" || os.Getenv("VERIF_ASMTRACE") == "1" {
+				asmTrace(r)
+			}
 			d, p := r.BuildDigests["default"], r.BuildDigests["purego"]
 			r.Extra["build_digests_equal"] = d == p && d != ""
 			if d != p && r.ViolTotal == 0 {
@@ -40,6 +47,32 @@ func init() {
 			}
 		},
 	})
+}
+
+// asmTrace single-steps the assembly routine in a ptrace'd child (bin/vmon asmtrace) and
+// checks every executed memory access; an unavailable tracer leaves the sub-monitor inconclusive
+// (recorded in the evidence) while the fence and the differential still decide.
+func asmTrace(r *fw.RunResult) {
+	out, err := exec.Command(filepath.Join(r.Root, "bin", "vmon"), "asmtrace").Output()
+	var rep struct {
+		Available bool                     `json:"available"`
+		Reason    string                   `json:"reason"`
+		Runs      []map[string]interface{} `json:"runs"`
+		SameTrace bool                     `json:"relative_traces_identical"`
+		Problems  []string                 `json:"problems"`
+	}
+	if jerr := json.Unmarshal(out, &rep); jerr != nil {
+		r.Extra["asm_single_step_trace"] = fmt.Sprintf("unavailable: %v %v", err, jerr)
+		return
+	}
+	if !rep.Available {
+		r.Extra["asm_single_step_trace"] = "unavailable: " + rep.Reason
+		return
+	}
+	r.Extra["asm_single_step_trace"] = map[string]interface{}{"inputs_traced": len(rep.Runs), "relative_traces_identical": rep.SameTrace, "first_run": rep.Runs[0]}
+	for _, p := range rep.Problems {
+		r.AddViolation(fw.Violation{Class: "asm-trace", VClass: "access", Message: "single-step trace of the assembly routine: " + p, Build: "default"})
+	}
 }
 
 var styles = []string{"random words", "all zero", "all one", "single bit", "single word", "valid trits in every lane", "some lanes with the (0,0) code", "captured from sponge use", "sparse random"}
